@@ -105,11 +105,36 @@ func (cfg *BootstrapConfig) SetBackupPeers(load func(context.Context) []peer.Add
 	opt(cfg)
 }
 
+// validate rejects configurations that the bootstrap goroutines cannot run
+// with: they would panic (nil function, non-positive ticker interval, negative
+// buffer size) after Bootstrap has returned and bring the process down.
+func (cfg *BootstrapConfig) validate() error {
+	if cfg.BootstrapPeers == nil {
+		return errors.New("bootstrap: BootstrapPeers function must be defined")
+	}
+	if cfg.Period <= 0 {
+		return errors.New("bootstrap: Period must be positive")
+	}
+	if cfg.loadBackupBootstrapPeers != nil {
+		if cfg.BackupBootstrapInterval <= 0 {
+			return errors.New("bootstrap: BackupBootstrapInterval must be positive")
+		}
+		if cfg.MaxBackupBootstrapSize < 0 {
+			return errors.New("bootstrap: MaxBackupBootstrapSize must not be negative")
+		}
+	}
+	return nil
+}
+
 // Bootstrap kicks off IpfsNode bootstrapping. This function will periodically
 // check the number of open connections and -- if there are too few -- initiate
 // connections to well-known bootstrap peers. It also kicks off subsystem
 // bootstrapping (i.e. routing).
 func Bootstrap(id peer.ID, host host.Host, rt routing.Routing, cfg BootstrapConfig) (io.Closer, error) {
+	if err := cfg.validate(); err != nil {
+		return nil, err
+	}
+
 	if len(cfg.BootstrapPeers()) == 0 {
 		// We *need* to bootstrap but we have no bootstrap peers
 		// configured *at all*, inform the user.
